@@ -12,10 +12,16 @@ Next == \/ stage = 0 /\ stage' = 1 /\ \E a \in Lo..Hi, b \in Lo..Hi : z' = <<Sg 
         \/ stage = 1 /\ stage' = 2 /\ \E c \in Lo..Hi, d \in Lo..Hi : z' = z \o <<Sg * c, Sg * d>>
 Spec == Init /\ [][Next]_vars
 St(s) == <<s.p, s.v, s.pp, s.pv, s.vv>>
+(* the recurrence depends on the weights and the height only through sigma = w * h: a second parameter set with the same
+   sigmas (half the height, twice the weights) must give the same numbers - the harness runs both, also through a tracker *)
+Alt == [h |-> R(10), wp |-> <<1, 10>>, wv |-> <<1, 20>>]
+AltOK == /\ Mul(Mul(Alt.wp, Alt.h), Mul(Alt.wp, Alt.h)) = SigP2
+         /\ Mul(Mul(Alt.wv, Alt.h), Mul(Alt.wv, Alt.h)) = SigV2
 Emit == stage = 2 =>
         LET r == Run(z[1], z[2], z[3], z[4]) IN
         /\ Assert(r.spd = 1, <<"exact covariance not positive-definite", z>>)
-        /\ PrintT(<<"REPLAY", ToJson([kind |-> "exact", z |-> z, h |-> Height, wp |-> WPos, wv |-> WVel,
+        /\ Assert(AltOK, "alternative parameter set has other sigmas")
+        /\ PrintT(<<"REPLAY", ToJson([kind |-> "exact", z |-> z, h |-> Height, wp |-> WPos, wv |-> WVel, alt |-> Alt,
                     ops |-> <<"p", "u", "p", "u", "p">>,
                     st |-> <<St(r.s1), St(r.s2), St(r.s3), St(r.s4), St(r.s5)>>, d |-> r.d])>>)
 =============================================================================
